@@ -27,6 +27,7 @@ DROPPED = ["visibility qualifiers (pub, pub(crate), pub(super))",
            "doc comments and line comments",
            "debug_assert!(..) / debug_assert_eq!(..) / debug_assert_ne!(..) and log::*!(..) statements",
            "display-only statements `<v>.iter().for_each(|e| { crate::display_error(e); });`",
+           "module-level `const` items of the source file that the extracted code refers to and the unit does not define are extracted with it",
            "where a unit says msg_rule: message-text expressions (`format!(..)`, `\"literal\".into()`) are replaced by an opaque opaque_msg()"]
 
 
@@ -377,13 +378,40 @@ def enclosing_fn(spans, line):
     return best[2] if best else ""
 
 
+def _referenced_consts(item, src_file, known_text):
+    """module-level `const NAME: T = expr;` items of the source file that the extracted text refers to and the unit
+    does not define: constants are part of the meaning of the code, so they are extracted with it (mechanical rule)"""
+    out = []
+    p = REPO + "/" + src_file
+    if not os.path.exists(p):
+        return out
+    src = open(p).read()
+    for name in sorted(set(re.findall(r"\b([A-Z][A-Z0-9_]{2,})\b", item))):
+        if re.search(r"\b(const|static)\s+" + name + r"\b", known_text) or re.search(r"\b(const|static)\s+" + name + r"\b", item):
+            continue
+        m = re.search(r"(?m)^[ \t]*(?:pub(?:\([a-z]+\))?\s+)?const\s+" + name + r"\s*:\s*[^=;]+=\s*[^;]+;", src)
+        if m:
+            out.append(rewrite(m.group(0).strip()))
+    return out
+
+
 def build_unit(u, outdir):
     tpl = open(VERIF + "/contracts/verus/" + u["template"]).read()
+    consts = []
     for e in u.get("extract", []):
         marker = "//@EXTRACT " + e["key"]
         if tpl.count(marker) != 1:
             raise ExtractError(f"template {u['template']}: marker {marker} not found exactly once")
-        tpl = tpl.replace(marker, "// ---- extracted from " + e["file"] + " (anchor `" + " ".join(e["anchor"].split()) + "`)\n" + extract_item(e))
+        item = extract_item(e)
+        if e.get("kind", "fn") in ("fn", "block") and e.get("file"):
+            for c in _referenced_consts(item, e["file"], tpl):
+                if c not in consts:
+                    consts.append(c)
+        tpl = tpl.replace(marker, "// ---- extracted from " + e["file"] + " (anchor `" + " ".join(e["anchor"].split()) + "`)\n" + item)
+    if consts:
+        # constants referenced by the extracted code and not defined by the unit: placed at the crate root of the unit
+        k = tpl.index("verus! {") + len("verus! {")
+        tpl = tpl[:k] + "\n// ---- constants of the source file referenced by the extracted code\n" + "\n".join("pub " + c if not c.startswith("pub ") else c for c in consts) + "\n" + tpl[k:]
     path = outdir + "/" + u["id"] + ".rs"
     open(path, "w").write(tpl)
     return path
